@@ -251,3 +251,89 @@ Proof.
   - right. right. exact Hw.
 Qed.
 
+
+(* ---------------- a started frame is finished, or the connection is dead ----------------
+   Only write-loop events touch the write side. In particular no caller event (Cancel, SeeClosed, ...)
+   can change [wire], [out] or the write loop's control state: once the header of a frame is written
+   (WPayload o), the only ways on are WWritePay (the whole payload follows) and WriteFail (the write
+   loop dies and nothing is ever written again). *)
+Definition is_writer_event (e : event) : bool :=
+  match e with
+  | WDefault | WAccept _ | WTakeAck | WWriteHdr | WWritePay | WriteFail _ | WSeeDone => true
+  | _ => false
+  end.
+
+Lemma nonwriter_same_out : forall cfg s e,
+  ack_inv s -> writer s <> WNone -> is_writer_event e = false -> same_out s (step cfg s e).
+Proof.
+  intros cfg s e Hack Hw He.
+  destruct e; try discriminate He; cbn [step];
+    try (match goal with |- same_out _ (?f _) => unfold f | |- same_out _ (?f _ _) => unfold f | |- same_out _ (?f _ _ _) => unfold f end;
+         unfold set_caller, init_fail, neg_fail, neg_fail_with, step_close; same_out_tac; fail).
+  - unfold step_see_closed. destruct (closed s); [apply leave_same_out|repeat split].
+  - apply leave_same_out.
+  - (* RFrame *) unfold step_rframe. destruct (reader s); try (repeat split; fail).
+    destruct (take_waiter cfg true (length (peer_sent s)) f
+                (note_close_resp f (set_peer_sent (peer_sent s ++ [f]) s))) as [s2 rep] eqn:Htw.
+    pose proof (take_waiter_same_out cfg true (length (peer_sent s)) f
+                  (note_close_resp f (set_peer_sent (peer_sent s ++ [f]) s))) as H2.
+    rewrite Htw in H2. cbn [fst] in H2.
+    eapply same_out_trans; [|eapply same_out_trans; [exact H2|eapply same_out_trans; [apply run_handler_same_out|]]].
+    + unfold note_close_resp. same_out_tac.
+    + same_out_tac.
+  - (* PeerEOF *) unfold step_peer_eof. destruct (reader s); try (repeat split; fail).
+    destruct p.
+    + unfold reader_dies. same_out_tac.
+    + unfold reader_dies. same_out_tac.
+    + destruct (take_waiter cfg false (length (peer_sent s)) f
+                  (note_close_resp f (set_peer_sent (peer_sent s ++ [f]) s))) as [s2 rep] eqn:Htw.
+      pose proof (take_waiter_same_out cfg false (length (peer_sent s)) f
+                    (note_close_resp f (set_peer_sent (peer_sent s ++ [f]) s))) as H2.
+      rewrite Htw in H2. cbn [fst] in H2.
+      assert (H3 : same_out s s2).
+      { eapply same_out_trans; [|exact H2]. unfold note_close_resp. same_out_tac. }
+      destruct (rep && (f_len f <=? max_buffered)).
+      * eapply same_out_trans; [exact H3|]. unfold reader_dies. same_out_tac.
+      * eapply same_out_trans; [exact H3|]. eapply same_out_trans; [apply run_handler_same_out|].
+        unfold eof_after_dispatch, reader_dies. same_out_tac.
+  - (* ConnFirst: only before the loops exist *)
+    unfold step_conn_first. destruct (phase s) eqn:Eph; try (repeat split; fail).
+    exfalso. apply Hw. apply (ai_phase s Hack). rewrite Eph. reflexivity.
+Qed.
+
+Theorem started_frame_finished_or_dead : forall cfg evs o e,
+  let s := run cfg evs in
+  writer s = WPayload o ->
+  let s' := step cfg s e in
+  (writer s' = WPayload o /\ wire s' = wire s /\ out s' = out s) \/
+  (e = WWritePay /\ wire s' = wire s ++ [CPay o] /\ out s' = out s ++ [o] /\ writer s' = after_frame o) \/
+  (exists k, e = WriteFail k /\ writer s' = WDead /\ wire s' = wire s ++ [CPartial o true k] /\ out s' = out s).
+Proof.
+  intros cfg evs o e s Hw s'. subst s'.
+  pose proof (ack_inv_run cfg evs) as Hack. fold s in Hack.
+  destruct (is_writer_event e) eqn:He.
+  - destruct e; try discriminate He; cbn [step].
+    + left. unfold step_wdefault. rewrite Hw. auto.
+    + left. unfold step_waccept. rewrite Hw. auto.
+    + left. unfold step_wtakeack. rewrite Hw. destruct (ackq s); auto.
+    + left. unfold step_wwritehdr. rewrite Hw. auto.
+    + right. left. unfold step_wwritepay. rewrite Hw. st_simpl_goal. auto.
+    + unfold step_writefail. rewrite Hw. destruct (k <? f_len (o_frame o)).
+      * right. right. exists k. st_simpl_goal. auto.
+      * left. auto.
+    + left. unfold step_wseedone. rewrite Hw. auto.
+  - left. destruct (nonwriter_same_out cfg s e Hack) as (Eo & Ewi & Ewr & _); [rewrite Hw; discriminate | assumption |].
+    rewrite Ewr, Ewi, Eo. auto.
+Qed.
+
+(* a cancellation (or a caller seeing the client closed) never touches the write side, in ANY state *)
+Theorem cancel_leaves_write_side : forall cfg s c,
+  wire (step cfg s (Cancel c)) = wire s /\ out (step cfg s (Cancel c)) = out s /\ writer (step cfg s (Cancel c)) = writer s /\
+  wire (step cfg s (SeeClosed c)) = wire s /\ out (step cfg s (SeeClosed c)) = out s /\ writer (step cfg s (SeeClosed c)) = writer s.
+Proof.
+  intros. cbn [step]. unfold step_cancel, step_see_closed.
+  destruct (leave_same_out RErrCtx c s) as (A & B & C & _).
+  destruct (closed s).
+  - destruct (leave_same_out RErrClosed c s) as (A' & B' & C' & _). repeat split; assumption.
+  - repeat split; assumption.
+Qed.
